@@ -69,6 +69,91 @@ def _star4():
     return np.array([[0, 0, 0], [1, 0, 0], [-0.33, 0.94, 0], [-0.33, -0.47, 0.82]])
 
 
+def _path4():
+    return np.array([[0, 0, 0], [1, 0, 0], [1.35, 0.93, 0], [2.2, 1.1, 0.55]])
+
+
+# non-anchor molecule templates: (geometry in bond lengths, bonds)
+W_TEMPLATES = {
+    "chain3": (_chain3, [(0, 1), (1, 2)]),
+    "ring3": (_ring3, [(0, 1), (1, 2), (0, 2)]),
+    "star4": (_star4, [(0, 1), (0, 2), (0, 3)]),
+    "path4": (_path4, [(0, 1), (1, 2), (2, 3)]),
+}
+# where the non-anchor molecule's centroid ends up after the anchor has been centred: on the x, y, z face of the
+# brick cell and on its corner (mask m: centroid = cell centre - 0.5*m*diag)
+PLACEMENTS = [(1, 0, 0), (0, 1, 0), (0, 0, 1), (1, 1, 1)]
+FACE6 = np.array([[1, 0, 0], [-1, 0, 0], [0, 1, 0], [0, -1, 0], [0, 0, 1], [0, 0, -1]], dtype=np.int64)
+
+
+def relabelled_systems(quick):
+    """Anchor A (3-chain, explicit anchor) + one non-anchor molecule W in EVERY permutation of W's atom order, W placed so
+    that it straddles a cell face / the cell corner once the anchor is centred; image_molecules is called with its
+    default other_molecules (from Topology.find_molecules()).  Plus a 16-atom system (4-star + W + 9 ions = 11
+    molecules) for the fully default call with guessed anchors."""
+    out = []
+    gA = _chain3()
+    for wname, (gfun, wb) in W_TEMPLATES.items():
+        gW = gfun()
+        nW = len(gW)
+        for perm in itertools.permutations(range(nW)):
+            for order in (("after",) if quick else ("after", "before")):
+                n = 3 + nW
+                offA, offW = (0, 3) if order == "after" else (nW, 0)
+                A = tuple(offA + i for i in range(3))
+                W = tuple(offW + perm[t] for t in range(nW))            # template atom t -> global index W[t]
+                geom = np.zeros((n, 3))
+                geom[list(A)] = gA
+                geom[list(W)] = gW
+                bonds = [(A[0], A[1]), (A[1], A[2])] + [(W[a], W[b]) for a, b in wb]
+                out.append(dict(name="aw-%s/lab=%s/%s" % (wname, "".join(map(str, perm)), order), n=n,
+                                mols=[A, tuple(sorted(W))], bonds=bonds, geom=geom,
+                                centres=np.array([[0.5, 0.5, 0.5], [0.5, 0.5, 0.5]]), small=False, anchors=[0],
+                                placements=PLACEMENTS, wmol=1, light=True))
+    gS, gW = _star4(), _chain3()
+    for perm in itertools.permutations(range(3)):
+        n = 16
+        A = (0, 1, 2, 3)
+        W = tuple(4 + perm[t] for t in range(3))
+        geom = np.zeros((n, 3))
+        geom[list(A)] = gS
+        geom[list(W)] = gW
+        bonds = [(0, 1), (0, 2), (0, 3), (W[0], W[1]), (W[1], W[2])]
+        cen = [[0.5, 0.5, 0.5], [0.5, 0.5, 0.5]] + [[(0.1 + 0.23 * k) % 1, (0.2 + 0.31 * k) % 1, (0.85 - 0.17 * k) % 1]
+                                                     for k in range(9)]
+        out.append(dict(name="guess16-chain3/lab=%s" % "".join(map(str, perm)), n=n,
+                        mols=[A, tuple(sorted(W))] + [(i,) for i in range(7, 16)], bonds=bonds, geom=geom,
+                        centres=np.array(cen), small=False, anchors="guess", placements=PLACEMENTS, wmol=1, light=True))
+    return out
+
+
+def components(n, bonds):
+    """Connected components of the bond graph (union-find), as a set of frozensets of atom indices."""
+    parent = list(range(n))
+
+    def find(a):
+        while parent[a] != a:
+            parent[a] = parent[parent[a]]
+            a = parent[a]
+        return a
+    for a, b in bonds:
+        ra, rb = find(a), find(b)
+        if ra != rb:
+            parent[max(ra, rb)] = min(ra, rb)
+    comp = {}
+    for i in range(n):
+        comp.setdefault(find(i), set()).add(i)
+    return {frozenset(c) for c in comp.values()}
+
+
+def all_graphs(nmax):
+    """Every labelled simple graph on 1..nmax atoms: (n, edge list)."""
+    for n in range(1, nmax + 1):
+        edges = list(itertools.combinations(range(n), 2))
+        for mask in range(1 << len(edges)):
+            yield n, [e for k, e in enumerate(edges) if mask >> k & 1]
+
+
 def systems(quick):
     """name -> list of variants; each variant dict(name, n, mols, bonds(list in insertion order), geom (n,3), centres (per mol, fractional), small(bool))."""
     out = []
@@ -126,7 +211,7 @@ def systems(quick):
     cen14 = cen + [[(0.1 + 0.23 * k) % 1, (0.2 + 0.31 * k) % 1, (0.85 - 0.17 * k) % 1] for k in range(8)]
     add("mix14/guessed", 14, [A, B] + [(i,) for i in range(5, 14)], [(0, 1), (1, 2), (3, 4)], geom, cen14, False,
         anchors="guess")
-    return out
+    return out + relabelled_systems(quick)
 
 
 def merge_order(bonds_sorted):
@@ -173,7 +258,9 @@ def scatters(sysv, full):
     """Integer image assignment per atom, shape (F, n, 3).  Small molecules (<= 3 atoms): `full` -> every assignment of
     {-1,0,1}^3 per atom (27^n); else atom 0 fixed and every assignment for the other atoms (27^(n-1): every relative
     image configuration).  Larger systems: the identity, every
-    single-atom scatter, every cut of a single (non-ring) bond with either side moved, every single-molecule shift."""
+    single-atom scatter, every cut of a single (non-ring) bond with either side moved, every single-molecule shift.
+    `light` systems (anchor + relabelled non-anchor molecule): the identity, every single-atom scatter and every
+    whole-molecule shift of the first two molecules, by the 26 images (`full`) or the 6 face images."""
     n = sysv["n"]
     if sysv["small"] and (full or n <= 2):
         idx = np.array(list(itertools.product(range(27), repeat=n)))
@@ -186,7 +273,11 @@ def scatters(sysv, full):
         return sc
     rows = [np.zeros((n, 3), np.int64)]
     groups = [[i] for i in range(n)]
-    if True:
+    light = bool(sysv.get("light"))
+    images = FACE6 if (light and not full) else NONZERO
+    if light:
+        groups = [[i] for m in sysv["mols"][:2] for i in m] + [list(m) for m in sysv["mols"][:2]]
+    else:
         for b in sysv["bonds"]:
             s = side_of_bond(n, sysv["bonds"], b)
             if s is not None:
@@ -200,15 +291,16 @@ def scatters(sysv, full):
         if k in seen or not g:
             continue
         seen.add(k)
-        for s in NONZERO:
+        for s in images:
             r = np.zeros((n, 3), np.int64)
             r[g] = s
             rows.append(r)
     return np.array(rows)
 
 
-def base_positions(sysv, V, bond_len, seed):
-    """Cartesian positions (n,3) of the compact (whole) system in the cell V; generic orientation and jitter."""
+def base_positions(sysv, V, bond_len, seed, placement=None):
+    """Cartesian positions (n,3) of the compact (whole) system in the cell V; generic orientation and jitter.
+    placement (mask) moves molecule sysv['wmol'] by -0.5*mask*diag(V) from its centre."""
     R = _rot(seed)
     n = sysv["n"]
     j = grids.jitter(n, 3, 0.08, seed)
@@ -217,6 +309,8 @@ def base_positions(sysv, V, bond_len, seed):
         g = (sysv["geom"][list(m)] + j[list(m)]) @ R.T * bond_len
         g = g - g.mean(0)
         x[list(m)] = g + cen @ V
+    if placement is not None:
+        x[list(sysv["mols"][sysv["wmol"]])] -= 0.5 * np.asarray(placement, float) * np.diag(V)
     return x
 
 
